@@ -72,6 +72,15 @@ PROBES = [
      'int main(void)\n{\n\tint x = 2;\n\tstruct V v = { x, 0x01020304, 99 };\n\tstruct W w = { x + 1, 77, 5 };\n\tstruct P ps[2] = { 1, 2, 3, 4, 5, 6 };\n\tint g[2][3] = { 1, 2, 3, 4 };\n\tstruct V vs[2] = { 1, 2, 3, 4, 5, 6 };\n'
      '\tout_l(v.kind);\n\tout_l(v.u.i);\n\tout_l(v.line);\n\tout_l(w.k);\n\tout_l(w.l);\n\tout_l(w.tail);\n\tout_l(ps[0].a + ps[0].b[1] * 10 + ps[1].a * 100 + ps[1].b[1] * 1000);\n'
      '\tout_l(g[0][2] + g[1][0] * 10 + g[1][2] * 100);\n\tout_l(vs[0].line + vs[1].kind * 10 + vs[1].u.i * 100 + vs[1].line * 1000);\n\treturn 0;\n}\n'),
+    ('side-effects-before-constant-operand', 'side effects of the left operand of && / || happen even when the right operand decides the value (x && 0, x || 1), also in ?: conditions and array bounds',
+     'void out_l(long);\nint n;\nint bump(void) { return ++n; }\nint main(void)\n{\n\tint a = 5, *p = &a;\n\tout_l((bump() && 0) ? 10 : 20);\n\tout_l(n);\n\tout_l(((*p)++ || 1) ? a : -1);\n\tout_l(a);\n'
+     '\t{\n\t\tchar buf[(bump() || 1)];\n\t\tout_l(sizeof buf);\n\t\tout_l(n);\n\t}\n\tout_l((bump(), 0) && bump());\n\tout_l(n);\n\tif (bump() && 0)\n\t\tout_l(-5);\n\tout_l(n);\n\tout_l(0 * bump() + n);\n\treturn 0;\n}\n'),
+    ('literal-types-at-run-time', 'integer constants have the type 6.4.4.1 gives them (u-suffixed non-decimal constants beyond 32 bits are unsigned long)',
+     'void out_l(long);\nlong v = -1;\nint s = 33;\nint main(void)\n{\n\tout_l(v < 0x100000000u);\n\tout_l(v < 0x100000000);\n\tout_l(-0x100000000u >> s);\n\tout_l(-0x100000000 >> s);\n'
+     '\tout_l((0x100000000u - 0x100000001u) / 2 > 0);\n\tout_l(v / 0x7fffffffffffffffu);\n\tout_l(v < 040000000000u);\n\tout_l(v < 4294967296u);\n\tout_l(v < 0xffffffffu);\n\tout_l(v < 0x7fffffff);\n\treturn 0;\n}\n'),
+    ('variadic-named-parameters', 'arguments for the NAMED parameters of a variadic function are converted to the parameter types (not default-promoted)',
+     'void out_l(long);\nvoid out_d(double);\nlong first(long a, double d, unsigned long u, ...) { out_d(d); out_l((long)(u >> 32)); return a; }\nfloat fl(float f, ...) { return f * 2; }\n'
+     'int main(void)\n{\n\tint neg = -7, three = 3;\n\tunsigned char c = 200;\n\tout_l(first(neg, three, neg, 1, 2));\n\tout_l(first(c, c, c, 0));\n\tout_d(fl(three, 1.5));\n\treturn 0;\n}\n'),
     (K_COPY_PACKED, 'assignment of a packed struct with an _Alignas member (size 5, alignment 4) copies 8 bytes: access beyond both objects',
      'void out_l(long);\nstruct __attribute__((packed)) P { _Alignas(4) int a; char b; };\nstruct P g1 = { 7, 8 }, g2;\n'
      'int main(void)\n{\n\tstruct P *p = &g2, *q = &g1;\n\t*p = *q;\n\tout_l(g2.a);\n\tout_l(g2.b);\n\treturn 0;\n}\n'),
